@@ -331,4 +331,97 @@ theorem subtype_refl_general (cls : ClassTable) (c : String) (h : registered cls
 example : (hierOf [("Ratio", ["ratio", "rational", "t"])] "ratio").isSome = true ∧
     registered [("rational", ""), ("ratio", "rational")] "ratio" = true := by decide
 
+/-! ## compound type specifiers -/
+
+/-- membership in a compound specifier implies `typep` of its head: the atomic law
+    "coerce returns an object of the requested type" is the first half of the compound one -/
+theorem member_implies_typep_head (tbl : HierTable) (o : Obs) (s : Spec) (h : member tbl o s = true) :
+    typep tbl o.ty s.head = true := by
+  cases s with
+  | atom n => simpa [member, Spec.head] using h
+  | range hd lo hi => simp only [member, Bool.and_eq_true] at h; exact h.1
+  | vector e n => simp only [member, Bool.and_eq_true] at h; exact h.1
+  | sized hd n => simp only [member, Bool.and_eq_true] at h; exact h.1
+
+/-- a member of `(head lo hi)` is a number within the bounds -/
+theorem member_range_bounds (tbl : HierTable) (o : Obs) (hd : String) (lo hi : Rat)
+    (h : member tbl o (.range hd (.val lo) (.val hi)) = true) :
+    ∃ v, o.val = some v ∧ lo ≤ v ∧ v ≤ hi := by
+  simp only [member, Bool.and_eq_true] at h
+  cases hv : o.val with
+  | none => simp [hv] at h
+  | some v =>
+    refine ⟨v, rfl, ?_⟩
+    simpa [hv, loOK, hiOK] using h.2
+
+/-- widening the bounds keeps every member -/
+theorem member_range_widen (tbl : HierTable) (o : Obs) (hd : String) (lo lo' hi hi' : Rat)
+    (h1 : lo' ≤ lo) (h2 : hi ≤ hi') (h : member tbl o (.range hd (.val lo) (.val hi)) = true) :
+    member tbl o (.range hd (.val lo') (.val hi')) = true := by
+  obtain ⟨v, hv, hl, hh⟩ := member_range_bounds tbl o hd lo hi h
+  simp only [member, Bool.and_eq_true] at h ⊢
+  refine ⟨h.1, ?_⟩
+  simp only [hv, loOK, hiOK, Bool.and_eq_true, decide_eq_true_eq]
+  exact ⟨Rat.le_trans h1 hl, Rat.le_trans hh h2⟩
+
+/-- `(head * *)` restricts nothing beyond the head -/
+theorem member_range_star (tbl : HierTable) (o : Obs) (hd : String) (v : Rat) (hv : o.val = some v) :
+    member tbl o (.range hd .star .star) = typep tbl o.ty hd := by
+  simp [member, hv, loOK, hiOK]
+
+/-- `coerce` to a compound specifier returns the converted object unchanged, and only when it is
+    a member of the requested type -/
+theorem coerceSpec_result_member (tbl : HierTable) (s : Spec) (r o : Obs)
+    (h : coerceSpec tbl s r = some o) : o = r ∧ member tbl o s = true := by
+  unfold coerceSpec at h
+  by_cases hm : member tbl r s = true
+  · rw [if_pos hm] at h
+    injection h with h
+    exact ⟨h.symm, by rw [← h]; exact hm⟩
+  · rw [if_neg hm] at h; exact absurd h (by simp)
+
+theorem coerceSpec_result_typep (tbl : HierTable) (s : Spec) (r o : Obs)
+    (h : coerceSpec tbl s r = some o) : typep tbl o.ty s.head = true :=
+  member_implies_typep_head tbl o s (coerceSpec_result_member tbl s r o h).2
+
+/-- two-element specifiers: `subtypep` is reflexive on registered specifiers as soon as it is on
+    the class names … -/
+theorem specSub_refl (cls : ClassTable) (hrefl : ∀ c, registered cls c = true → subtypep cls c c = true)
+    (s : TSpec) (hs : specRegistered cls s = true) : specSub cls s s = true := by
+  unfold specRegistered at hs
+  unfold specSub
+  simp only [Bool.and_eq_true] at hs ⊢
+  refine ⟨hrefl _ hs.1, ?_⟩
+  cases he : s.elem with
+  | none => rfl
+  | some e => simp only; apply hrefl; simpa [he] using hs.2
+
+/-- … and transitive as soon as it is on the class names -/
+theorem specSub_trans (cls : ClassTable)
+    (htrans : ∀ a b c, subtypep cls a b = true → subtypep cls b c = true → subtypep cls a c = true)
+    (s t u : TSpec) (h1 : specSub cls s t = true) (h2 : specSub cls t u = true) : specSub cls s u = true := by
+  unfold specSub at *
+  simp only [Bool.and_eq_true] at *
+  refine ⟨htrans _ _ _ h1.1 h2.1, ?_⟩
+  cases hu : u.elem with
+  | none => rfl
+  | some ec =>
+    have h2' := h2.2
+    rw [hu] at h2'
+    cases ht : t.elem with
+    | none => simp [ht] at h2'
+    | some eb =>
+      have h1' := h1.2
+      rw [ht] at h1' h2'
+      cases hs : s.elem with
+      | none => simp [hs] at h1'
+      | some ea =>
+        rw [hs] at h1'
+        exact htrans _ _ _ h1' h2'
+
+example : member [("Fixnum", ["fixnum", "integer", "t"])] ⟨"fixnum", some 12, none⟩ (.range "integer" (.val 0) (.val 15)) = true ∧
+    member [("Fixnum", ["fixnum", "integer", "t"])] ⟨"fixnum", some 12, none⟩ (.range "integer" (.val 0) (.val 5)) = false ∧
+    member [("SingleFloat", ["single-float", "float", "t"]), ("DoubleFloat", ["double-float", "float", "t"])]
+      ⟨"double-float", some 12, none⟩ (.range "single-float" (.val 0) (.val 15)) = false := by decide
+
 end SlipVerif.Types
